@@ -158,7 +158,7 @@ class Gen:
         r = self.r
         # switch type
         prim_typedefs = [t["name"] for t in types if t["k"] == "typedef" and t["arr"] is None and t["ty"] in
-                         [w for k in ("u32", "i32", "u64", "i64") for w in PRIM_SPELLINGS[k]]]
+                         [w for k in ("u32", "i32") for w in PRIM_SPELLINGS[k]]]     # RFC 4506 4.15: int, unsigned int or an enum
         c = r.below(8)
         swkind = "int"
         if c <= 2:
